@@ -133,5 +133,115 @@ def register(reg):
                      modifies=(("NaturalJoinNode", "jointype"), ("NaturalJoinNode", "on_a"), ("NaturalJoinNode", "on_b"), ("ViewRepresentation", "sources"))))
 
 
+    register_order(reg)
+
+
 KEYS_C19 = ["PandasModel.clean_copy", "PandasModel._table_step"]
 KEYS_C16 = ["SQLiteModel._emit_right_join_as_left_join"]
+
+
+# ====================================================================== C18: SQLModel.order_to_near_sql (ORDER BY / DESC / LIMIT text)
+def register_order(reg):
+    import z3
+    from pyvc.api import Contract, T, VList, VNone, VOpt, VPy, VScalar, VSet, VStr, VTuple, fresh_name
+    from contracts.vr_common import COLS, NODE, register_classes
+    import contracts.c24_orderedset as c24
+    register_classes(reg)
+    if "OrderedSet" not in reg.classes:
+        c24.register(reg)
+    reg.add_class("SQLModel", {}, file="data_algebra/sql_model.py")
+    SM = T.obj("SQLModel")
+    NEAR = T.opaque("NearSQL")
+    Raised = __import__("pyvc.engine", fromlist=["Raised"]).Raised
+
+    def quote(S):
+        return S.func("quote_identifier", S.Atom, S.Atom)
+
+    def q_apply(eng, st, argmap, node):
+        r = quote(eng.S)(eng.as_atom(argmap["identifier"], st, node))
+        st.assume(r != eng.S.NONE)
+        return [(st, VScalar(r, T.atom))]
+
+    reg.add(Contract(key="SQLModel.quote_identifier", cls="SQLModel", params={"self": SM, "identifier": T.atom}, assumed=True, apply=q_apply,
+                     note="quote_identifier is a function of the name (its own correctness is C14's business)"))
+
+    def sep_apply(eng, st, argmap, node):
+        S = eng.S
+        terms = eng.list_of(argmap["terms"], st, node)
+        st.ghost["sep_terms_arg"] = terms
+        n = z3.Int(fresh_name("sep_n"))
+        arr = z3.Const(fresh_name("sep_terms"), z3.ArraySort(z3.IntSort(), S.Atom))
+        st.assume(n == terms.n)
+        eng.registry.note("assumed: _indent_and_sep_terms returns one formatted line per term, in order (a function of the term list)")
+        return [(st, VList(n, arr, T.list(T.atom)))]
+
+    reg.add(Contract(key="SQLModel._indent_and_sep_terms", cls="SQLModel", params={"self": SM, "terms": COLS}, assumed=True, apply=sep_apply))
+
+    def cu_apply(eng, st, argmap, node):
+        r = eng.alloc(st, "OrderedSet")
+        return [(st, VTuple([r], is_list=True))]
+
+    reg.add(Contract(key="OrderRowsNode.columns_used_from_sources", cls="OrderRowsNode", params={"self": T.obj("OrderRowsNode")}, assumed=True, apply=cu_apply,
+                     note="columns_used_from_sources: proved separately (C10); here only its shape (one entry) matters"))
+
+    def tnsi_apply(eng, st, argmap, node):
+        return [(st, VScalar(z3.Const(fresh_name("subsql"), eng.S.sort("NearSQL")), NEAR))]
+
+    reg.add(Contract(key="ViewRepresentation.to_near_sql_implementation_", cls="ViewRepresentation", params={"self": NODE}, assumed=True, apply=tnsi_apply))
+    reg.opaque_methods[("NearSQL", "to_bound_near_sql")] = Contract(key="NearSQL.to_bound_near_sql", params={}, assumed=True,
+                                                                     apply=lambda eng, st, argmap, node: [(st, VScalar(z3.Const(fresh_name("bound"), eng.S.sort("NearSQLContainer")), T.opaque("NearSQLContainer")))])
+    reg.add(Contract(key="ViewRepresentation.to_python_src_", cls="ViewRepresentation", params={"self": NODE}, assumed=True,
+                     apply=lambda eng, st, argmap, node: [(st, VScalar(z3.Const(fresh_name("src_text"), eng.S.Atom), T.atom))]))
+
+    def step_apply(eng, st, argmap, node):
+        st.ghost["unary_step_suffix"] = argmap.get("suffix")
+        st.ghost["unary_step_terms"] = argmap.get("terms")
+        return [(st, VScalar(z3.Const(fresh_name("near_sql"), eng.S.sort("NearSQL")), NEAR))]
+
+    reg.add(Contract(key="data_algebra.near_sql.NearSQLUnaryStep", params={}, assumed=True, apply=step_apply,
+                     note="NearSQLUnaryStep(...) keeps the suffix it is given (rendered verbatim after the SELECT by near_sql.py, not under contract)"))
+
+    def ens(c):
+        S = c.S
+        if c.raised:
+            return []
+        node = c.order_node
+        oc = c.field(node, "order_columns")
+        rev = c.eng.list_mem(c.field(node, "reverse"), c.st)
+        lim = c.field(node, "limit")
+        suffix = c.st.ghost.get("unary_step_suffix")
+        if suffix is None:
+            return [("builds-a-unary-step", z3.BoolVal(False))]
+        sl = c.eng.list_of(suffix, c.st)
+        cat = S.func("str_concat", S.Atom, S.Atom, S.Atom)
+        out = []
+        arg = c.st.ghost.get("sep_terms_arg")
+        i = z3.Int("ord_i")
+        if arg is None:
+            out.append(("no-ORDER-BY-only-without-order-columns", oc.n <= 0))
+        else:
+            desc = S.str_const(" DESC")
+            want = lambda k: z3.If(rev[oc.arr[k]], cat(quote(S)(oc.arr[k]), desc), quote(S)(oc.arr[k]))
+            out.append(("ORDER-BY-terms-are-the-quoted-order-columns-in-order-with-DESC-exactly-on-reversed-ones",
+                        z3.And(arg.n == oc.n, oc.n > 0, z3.ForAll([i], z3.Implies(z3.And(0 <= i, i < oc.n), arg.arr[i] == want(i))))))
+            out.append(("suffix-starts-with-ORDER-BY", z3.And(sl.n >= 1, sl.arr[0] == S.str_const("ORDER BY"))))
+        str_of = S.func("str_of_Int", z3.IntSort(), S.Atom)
+        limit_text = cat(S.str_const("LIMIT "), str_of(lim.val.z))
+        n_order = (arg.n + 1) if arg is not None else z3.IntVal(0)
+        out.append(("LIMIT-clause-present-exactly-when-a-limit-is-set (also limit=0)",
+                    z3.If(lim.is_none, sl.n == n_order, z3.And(sl.n == n_order + 1, sl.arr[sl.n - 1] == limit_text))))
+        return out
+
+    reg.add(Contract(key="SQLModel.order_to_near_sql", file="data_algebra/sql_model.py", qualname="SQLModel.order_to_near_sql", cls="SQLModel",
+                     params={"self": SM, "order_node": T.obj("OrderRowsNode"), "using": T.opt(T.obj("OrderedSet")), "temp_id_source": Ty_py_none(), "sql_format_options": T.opaque("SQLFormat")},
+                     returns=NEAR, ensures=ens, modifies=(("OrderedSet", "impl"),),
+                     requires=lambda c: [("is-an-order-node", c.field(c.order_node, "node_name").z == c.S.str_const("OrderRowsNode")), ("one-source", c.field(c.order_node, "sources").n == 1),
+                                         ("node-allocated", c.eng.allocated(c.st, c.order_node)), ("source-allocated", c.eng.allocated(c.st, VScalar(c.field(c.order_node, "sources").arr[0], NODE)))]))
+
+
+def Ty_py_none():
+    from pyvc.values import Ty
+    return Ty("py", (None,))
+
+
+KEYS_C18 = ["SQLModel.order_to_near_sql"]
